@@ -12,10 +12,11 @@ Definition mk_env (ne : list bool) (bk : list (list item)) (fmt : list (list (N 
            (users : list (list item)) (parses : list (str * option ptree))
            (srcs : list (outcome (list str))) (files : list iid)
            (bkvars : list vars) (fmtvars : list (list (N * vars))) (uservars : list vars)
-           (qexpr : list (option str)) (sdef : list (list (str * str))) : env :=
+           (qexpr : list (option str)) (sdef : list (list (str * str))) (accepts : list (list N)) : env :=
   {| e_ne := nthN false ne; e_bk := nthN [] bk;
      e_fmt := fun c f => lookupN [] f (nthN [] fmt c);
      e_user := nthN [] users;
+     e_accepts := fun m t => existsb (N.eqb t) (nthN [] accepts m);
      e_qexpr := nthN None qexpr; e_sdef := nthN [] sdef;
      e_bkvars := nthN [] bkvars;
      e_fmtvars := fun c f => lookupN [] f (nthN [] fmtvars c);
